@@ -5,8 +5,9 @@
            pack:   (serr | spanic | (sok xFRAME nSIZE)   snone | STREAMRES)
            stream: STREAMRES = ((sok FIELDS) ... ) sok|sfail
            FIELDS = (zSEQ xMT xMETHOD xSTATUSENC ((xK xV)...) xCODEC xBODY xIDS nSIZE)
-   strconv.Quote on non-ASCII runs: the harness only generates printable valid UTF-8 there,
-   which Quote copies. gjson on text that is not the written frame shape: the harness only
+   The service method goes through escapeBody like the body (every byte value is generated).
+   strconv.Quote only sees the status and metadata query strings (percent-encoded ASCII), so
+   [quote_hi] is never reached. gjson on text that is not the written frame shape: the harness only
    generates text on which every Get comes back empty. *)
 From Coq Require Import Strings.String Strings.Byte.
 From Coq Require Import List Arith NArith ZArith Bool Lia.
